@@ -84,6 +84,15 @@ KINDS += ["{x}", "%(a)s", {"{0.a}": 1}]
 # an integer beyond the range of an IEEE double (JSON text may carry any number of digits)
 HUGE = 10 ** 400
 KINDS += [HUGE]
+# near-valid shapes of structured special properties, with leaves of other JSON kinds
+NEAR_VALID = {
+    "granular_markings": [[{"selectors": sel, "marking_ref": "marking-definition--" + UUID4B}]
+                          for sel in (["type"], ["nope"], [5], [None], [["type"]], [{"a": 1}], [True], ["type", 5], [], 5, "type", None,
+                                      {"type": 1}, [""], ["a.b"], ["type.[0]"])]
+                         + [[{"selectors": ["type"]}, 5], [{"selectors": ["type"], "marking_ref": 5}], [{"marking_ref": "x"}]],
+    "extensions": [{"extension-definition--" + UUID4B: {"extension_type": et}} for et in ("property-extension", 5, None, ["x"], {"a": 1})],
+    "object_marking_refs": [["marking-definition--" + UUID4B], [5], [None], "marking-definition--" + UUID4B, [["x"]]],
+}
 # property / key / type names at the edges of the naming rules
 ODD_NAMES = ["", "a", "_", "0", "1_2", "__", "-", "x" * 300]
 
@@ -284,6 +293,11 @@ def gen_slot_cases(run, desc):
                 for v in (KINDS if thorough else FEW_KINDS + rng.sample(KINDS, 2)):
                     ac = rng.random() < 0.5
                     cases.append(mk(subst=[[[name], v]], allow_custom=ac))
+                # a value of the shape the library's own property of that name has, with leaves of other kinds: it
+                # stays uncleaned on a class that does not define the property
+                for v in NEAR_VALID.get(name, []):
+                    for ac in (True, False):
+                        cases.append(mk(subst=[[[name], v]], allow_custom=ac))
             # required slots dropped
             for s in c["slots"]:
                 if s["required"] and s["name"] in base:
@@ -507,6 +521,38 @@ def gen_custom_registry_cases(run, desc):
             for d in variants:
                 out.append({"op": "parse", "data": d, "allow_custom": rng.random() < 0.2})
     return out
+
+
+def gen_history_cases(run, desc):
+    """history: a call that FAILS under one combination of flags, then a call on the same questionable value under
+    another combination; the second outcome must equal what a pristine process gives (a failed construction leaves
+    no trace: registries, class tables, Property objects, caches)"""
+    rng = run.rng
+    nil = "00000000-0000-0000-0000-000000000000"
+    v1 = "a8098c1a-f86e-11da-bd1a-00112444be1e"
+    hosts = [(identity21(), "name"),
+             ({"type": "identity", "id": "identity--" + UUID4, "created": TS, "modified": TS, "name": "n", "identity_class": "individual"}, "name"),
+             ({"type": "file", "spec_version": "2.1", "id": "file--" + UUID4, "name": "x"}, "name"),
+             ({"type": "x-c17-thing", "spec_version": "2.1", "id": "x-c17-thing--" + UUID4, "created": TS, "modified": TS, "size": 3,
+               "extensions": {EXT_D: {"extension_type": "new-sdo"}}}, "size")]
+    out = []
+    flags = [(ac, io) for ac in (False, True) for io in (False, True)]
+    for host, req in hosts:
+        t = host["type"]
+        variants = [dict(host, id=t + "--" + u) for u in (nil, v1, UUID4.upper(), UUID4.replace("-", ""))]
+        variants += [dict(host, x_c17=1), dict(host, custom_properties={"x_c17": 1}), dict(host, created="2020-01-01T00:00:00Z"),
+                     dict(host, extensions={"x-unknown-ext": {"a": 1}})]
+        for v in variants:
+            broken = {k: x for k, x in v.items() if k != req}
+            for fa in flags:
+                for fb in (flags if run.tier == "thorough" else rng.sample(flags, 2)):
+                    if fa == fb:
+                        continue
+                    first = {"op": "parse", "data": broken, "allow_custom": fa[0], "interoperability": fa[1]}
+                    then = {"op": "parse", "data": v, "allow_custom": fb[0], "interoperability": fb[1]}
+                    out.append({"op": "history", "first": first, "then": then})
+                    out.append({"op": "history", "first": dict(first, op="construct_by_type"), "then": then}) if False else None
+    return [c for c in out if c]
 
 
 def gen_store_cases(run, desc):
@@ -968,6 +1014,14 @@ def oracle_one(case, r, mset):
     out = []
     if r["out"] == "HarnessError":
         return out
+    if r["out"] == "History":
+        if r.get("differs") and (r.get("first") or {}).get("out") == "Raise":
+            out.append(Violation(
+                "after a FAILED %s (%s), %s gives %s but a pristine process gives %s: the failed construction left a trace" % (
+                    short(case["first"]), r["first"].get("cls"), short(case["then"]),
+                    r["after"].get("cls") or r["after"].get("out"), r["alone"].get("cls") or r["alone"].get("out")),
+                {"kind": "history", "case": case}))
+        return out
     if r["out"] == "Raise" and not r.get("family"):
         fid = classify(case, r, mset)
         out.append(Violation(
@@ -1132,7 +1186,7 @@ def check(run):
     for c, r, mset in zip(cases, impl, msets):
         run.violations += oracle_one(c, r, mset)
     # user-registered classes (public decorators) in a separate worker process: oracle only
-    ccases = gen_custom_registry_cases(run, desc)
+    ccases = gen_custom_registry_cases(run, desc) + gen_history_cases(run, desc)
     for c in ccases:
         c["_custom"] = True
     cimpl = common.run_impl("c17_impl", ccases, procs=2, args=("custom",))
@@ -1173,14 +1227,19 @@ def check(run):
             pass
         wide = _T()
         wide.rng, wide.tier = run.rng, "thorough"
+        # the FULL generator (every slot x every kind, raw inputs, marking, store, huge numbers, deep sites), thorough settings
         more = gen_slot_cases(wide, desc)
         run.rng.shuffle(more)
-        more = more[:60000]
+        more = more[:60000] + gen_raw_cases(wide) + gen_marking_cases(wide, desc) + gen_store_cases(wide, desc) \
+            + gen_huge_number_cases(wide, desc) + gen_deep_cases(wide)
         mimpl = common.run_impl("c17_impl", more)
         run.coverage["search_cases"] = len(more)
         for c, r in zip(more, mimpl):
             run.count(c)
-            run.violations += oracle_one(c, r, None)
+            try:
+                run.violations += oracle_one(c, r, None)
+            except Exception as e:  # noqa: BLE001  -- the oracle must never crash the check
+                run.violations.append(Violation("oracle failed on a case: %s: %s" % (type(e).__name__, e), {"kind": "family", "case": c}))
 
     run.coverage["trusted_base"] += [
         "translators/tr_c17classes.py + harness/impl/c17_impl.py describe (class tables read from the live classes; AST walk of "
@@ -1208,6 +1267,8 @@ def replay(payload):
     bad = False
     if r.get("kind") == "family":
         bad = res["out"] == "Raise" and not res.get("family")
+    elif r.get("kind") == "history":
+        bad = bool(res.get("differs")) and (res.get("first") or {}).get("out") == "Raise"
     elif r.get("kind") == "accepted":
         bad = res["out"] == "Ok"
     elif r.get("kind") == "registry":
